@@ -29,7 +29,7 @@ func c16arith(run *ev.Run) {
 			end := start + common.Timestamp(D)
 			// subsets of the interior+end call times {start+1 .. end}; bit i = call at start+1+i
 			for mask := 0; mask < 1<<uint(D); mask++ {
-				d := vestingsc.VerifDest{ID: "d", Amount: currency.Coin(A), Last: start, Move: start}
+				d := vestingsc.VerifMiscDest{ID: "d", Amount: currency.Coin(A), Last: start, Move: start}
 				var calls []int64
 				times := []common.Timestamp{}
 				for i := int64(0); i < D; i++ {
@@ -40,7 +40,7 @@ func c16arith(run *ev.Run) {
 				times = append(times, end, end, end) // at/after expiry every call is clamped to the end
 				bad := false
 				for k, now := range times {
-					nd, amt, err := vestingsc.VerifUnlock(d, now, end)
+					nd, amt, err := vestingsc.VerifMiscUnlock(d, now, end)
 					run.Add(0, 1, 1)
 					calls = append(calls, int64(now-start))
 					replay := map[string]any{"amount": A, "duration": D, "call_times_after_start": calls}
